@@ -1,11 +1,128 @@
-(* C04 — property theorems (statements closed by `exact <lemma>`). *)
+(* C04 — property theorems.  Only statements closed by `exact <lemma>` (or a
+   1-3 line wrapper) and the Print Assumptions the check collects.
+
+   Vocabulary (coq/C04/Model.v, Proofs.v):
+     fsys                 abstract directory: path -> Absent | Partial | Complete
+     run_once kd n w fs r one NP2Converter(...).process(...) call (fresh object) with target file,
+                          options, overwrite flag, optional crash index and optional adversary
+                          damage described by r, on a probe of kind kd with n shanks, w windows
+     state_after ... h    the directory after the history h (list of runs), from init_fs
+     plan24 / plan21      the list of atomic steps of one run; exec (firstn c plan) = the
+                          run interrupted before its step number c
+     orig_ok fs           the original is complete as .bin, or as .cbin + .ch
+     shanks_ok n fs       for every shank k < n: ap data complete (.bin, or .cbin + .ch) and ap
+                          metadata complete
+   Shank count n and window count w are arbitrary; histories are unbounded. *)
 From Coq Require Import ZArith List Bool Arith Lia.
 From IBL.C04 Require Import Model Proofs.
 Import ListNotations.
 
+(* Every history of runs — any options, any overwrite flag, any target (plain,
+   compressed, an already split shank file, a missing file), interrupted at any
+   step or not, with or without damage to a shank file before verification —
+   leaves the original recoverable: its metadata untouched, and the samples
+   complete as .bin or as .cbin+.ch, or (NP2.4 only) every shank's ap data and
+   metadata complete.  Interrupted runs are runs, so this covers every
+   intermediate state as well. *)
+Theorem C04_original_recoverable : forall kd n w compressed h,
+  let fs := state_after kd n w (init_fs compressed) h in
+  fs (PFile Orig FMeta) = Complete /\
+  (orig_ok fs \/ (kd = NP24 /\ shanks_ok n fs)).
+Proof. exact original_recoverable. Qed.
+Print Assumptions C04_original_recoverable.
+
+(* NP2.4: if a run, stopped anywhere, has changed any file of the original,
+   then post_check and delete_original were both set, the run had gone through
+   all its other steps (the change is its last step, delete_NP24), not taken the
+   "already exists" exit, check_completed is set, and at that moment every
+   shank's ap data and metadata are complete. *)
+Theorem C04_delete_only_after_verify : forall n w compressed h o ow corrupt tf c rs',
+  let fs := state_after NP24 n w (init_fs compressed) h in
+  (tf = FBin \/ tf = FCbin) -> orig_ok fs ->
+  exec (firstn c (plan24 n w o ow corrupt tf fs)) (mkR fs false) = (rs', None) ->
+  (exists f, r_fs rs' (PFile Orig f) <> fs (PFile Orig f)) ->
+  o_post o = true /\ o_del o = true /\ r_checked rs' = true /\ shanks_ok n (r_fs rs') /\
+  (length (prep24 ow fs n ++ body24 n w o ow corrupt) < c)%nat /\ already24 ow fs n = false.
+Proof.
+  intros n w compressed h o ow corrupt tf c rs' fs Htf Ho Hx.
+  exact (proj2 (np24_prefix n w o ow corrupt tf fs c rs' Htf Ho
+                  (history_inv NP24 n w h _ (init_inv NP24 n compressed)) Hx)).
+Qed.
+Print Assumptions C04_delete_only_after_verify.
+
+(* check_completed is true only after a check_NP24 step of the same run that
+   found every shank's ap.bin complete (bit-identical content). *)
+Theorem C04_check_completed_sound : forall l fs rs',
+  exec l (mkR fs false) = (rs', None) -> r_checked rs' = true ->
+  exists l1 m l2 rsv, l = l1 ++ SVerify m :: l2 /\ exec l1 (mkR fs false) = (rsv, None) /\
+    forall k, (k < m)%nat -> r_fs rsv (PFile (Shank k Ap) FBin) = Complete.
+Proof. intros l fs rs'. exact (check_completed_sound l (mkR fs false) rs' eq_refl). Qed.
+Print Assumptions C04_check_completed_sound.
+
+(* NP2.1 (single shank): along a run started on a complete .bin, stopped
+   anywhere, the .bin is complete, or it has been removed and the finished
+   .cbin and .ch are complete (compressed in place, losslessly by mtscomp's own
+   check inside the SCompEnd step). *)
+Theorem C04_np21_replaced_only_by_complete_cbin : forall n w compressed h o ow tf c rs',
+  let fs := state_after NP21 n w (init_fs compressed) h in
+  orig_ok fs -> (tf = FBin -> fs (PFile Orig FBin) = Complete) ->
+  exec (firstn c (plan21 w o ow tf fs)) (mkR fs false) = (rs', None) ->
+  fs (PFile Orig FBin) = Complete ->
+  r_fs rs' (PFile Orig FBin) = Complete \/
+  (r_fs rs' (PFile Orig FBin) = Absent /\ r_fs rs' (PFile Orig FCbin) = Complete /\
+   r_fs rs' (PFile Orig FCh) = Complete).
+Proof.
+  intros n w compressed h o ow tf c rs' fs Ho Htf Hx.
+  exact (proj2 (proj2 (np21_prefix NP21 n w o ow tf fs c rs' Ho
+                  (history_inv NP21 n w h _ (init_inv NP21 n compressed)) Htf Hx))).
+Qed.
+Print Assumptions C04_np21_replaced_only_by_complete_cbin.
+
+(* Not an NP2 probe: status -1, nothing changes. *)
 Theorem C04_np1_status : forall n w fs r k,
   r_target r <> TShank k -> input_state NP1 n fs (r_target r) = Present ->
   out_outcome (run_once NP1 n w fs r) = Status (-1) /\
   (forall p, out_fs (run_once NP1 n w fs r) p = fs p).
 Proof. exact np1_noop. Qed.
 Print Assumptions C04_np1_status.
+
+(* Input that is already a split shank file: status 0, already_processed, no
+   step executed, nothing changes. *)
+Theorem C04_split_input_noop : forall kd n w fs r k,
+  r_target r = TShank k -> input_state kd n fs (r_target r) = Present ->
+  let o := run_once kd n w fs r in
+  out_outcome o = Status 0 /\ out_processed o = true /\ out_trace o = [] /\ forall p, out_fs o p = fs p.
+Proof. exact split_input_noop. Qed.
+Print Assumptions C04_split_input_noop.
+
+(* F-C04-b (faithful to the code): after a first run interrupted inside
+   _prepare_files_NP24, a run without overwrite reports "nothing done" (status
+   0) and yet creates the missing shank folders with empty files. *)
+Theorem C04_rerun_after_interrupted_prepare_refuted :
+  exists fs r, let o := run_once NP24 4 2 fs r in
+    fs = state_after NP24 4 2 (init_fs false)
+           [mkRun TBin (mkO true false true) false (Some 1%nat) None] /\
+    r_ow r = false /\ r_crash r = None /\
+    out_outcome o = Status 0 /\ fs (PDir 1) = Absent /\ out_fs o (PDir 1) = Complete /\
+    out_fs o (PFile (Shank 1 Ap) FBin) = Partial.
+Proof.
+  eexists. exists (mkRun TBin (mkO true false true) false None None).
+  cbv zeta. split; [reflexivity|]. vm_compute. repeat split.
+Qed.
+Print Assumptions C04_rerun_after_interrupted_prepare_refuted.
+
+(* Non-vacuity: a complete NP2.4 run with verification, compression and
+   deletion from the fresh directory ends with the original gone, every shank
+   compressed, check_completed set; the same history interrupted just before
+   delete_NP24 keeps the original. *)
+Example C04_example_full_run :
+  let o := run_once NP24 2 2 (init_fs false) (mkRun TBin (mkO true true true) false None None) in
+  out_outcome o = Status 1 /\ out_checked o = true /\ out_fs o (PFile Orig FBin) = Absent /\
+  out_fs o (PFile (Shank 1 Ap) FCbin) = Complete /\ out_fs o (PFile (Shank 1 Ap) FBin) = Absent /\
+  length (out_trace o) = 32%nat.
+Proof. vm_compute. repeat split. Qed.
+
+Example C04_example_crash_before_delete :
+  let o := run_once NP24 2 2 (init_fs false) (mkRun TBin (mkO true true true) false (Some 31%nat) None) in
+  out_outcome o = Raised ECrash /\ out_checked o = true /\ out_fs o (PFile Orig FBin) = Complete.
+Proof. vm_compute. repeat split. Qed.
